@@ -71,6 +71,10 @@ class Array(AbstractValueWithQuantityObject, Generic[ValuesType]):
 
     """
 
+    # Makes numpy defer to the reflected operators of this class when a numpy scalar or array is the
+    # left operand (otherwise numpy computes on the raw values and the unit is silently dropped).
+    __array_priority__ = 100.0
+
     @overload
     def __init__(self, category: Union[str, Quantity]): ...
 
